@@ -242,7 +242,10 @@ def _dead_peer(fl, ws, ci, answered, d, monitor, send_at1, phase, polls):
         if phase:
             # another session opened earlier shifts the phase of the monitor sweep relative to this session
             other = _Client(sut, False)
-            _run_to(sut, other, sut.k.now + phase)
+            t_phase = sut.k.now + phase
+            while sut.k.now < t_phase:
+                sut.run(until=sut.k.now + 1)
+                _serve(other)           # (it is alive: a PING that reaches it during this stretch is answered at once)
         t0 = sut.k.now
         cl = _Client(sut, ws)
         if not polls and not ws and cl.poll is not None:
